@@ -38,9 +38,12 @@ func TestC03Stalled(t *testing.T) {
 			for _, h := range hs {
 				h.SetSlow(1, 1000*time.Hour) // reads one more byte, then nothing
 			}
-			// something for everybody: the broadcast is queued for each of the peers that do not read
-			if r := sentinel.Request(hlref.TranUserBroadcast, fld(hlref.FData, bytes.Repeat([]byte{'B'}, size))); !okReply(r) {
-				rt.Fatalf("with %d logged-in peers that do not read: the broadcast request of the well-behaved client got no reply", n)
+			// something for everybody: broadcasts queue up for each of the peers that do not read (the read a peer had pending
+			// when it stopped still takes the first one)
+			for b := 0; b < 3; b++ {
+				if r := sentinel.Request(hlref.TranUserBroadcast, fld(hlref.FData, bytes.Repeat([]byte{byte('A' + b)}, size))); !okReply(r) {
+					rt.Fatalf("with %d logged-in peers that do not read: broadcast request %d of the well-behaved client got no reply", n, b+1)
+				}
 			}
 			for k, typ := range []int{hlref.TranKeepAlive, hlref.TranGetUserNameList, hlref.TranGetMsgs, hlref.TranKeepAlive} {
 				if r := sentinel.Request(typ); r == nil || r.IsReply != 1 {
